@@ -33,8 +33,16 @@ RL = "runner_local.memento_run_local"
 # infeasible branch, and a rule may cut edges ("the look-up found nothing") and ask what is still
 # reachable.
 # ---------------------------------------------------------------------------------------------
+_PARSED = {}
+
+
 def _parse(text):
-    return ast.parse(text, mode="eval").body
+    """Expression of a text produced by the symbolic store (shared: callers must not modify it)."""
+    if text not in _PARSED:
+        if len(_PARSED) > 20000:
+            _PARSED.clear()
+        _PARSED[text] = ast.parse(text, mode="eval").body
+    return _PARSED[text]
 
 
 def _is_pure_dotted(e):
@@ -86,9 +94,10 @@ def certain(d):
 
 
 class Sym:
-    def __init__(self, fa, watch=None, cut=None, tuples=None, returns=None, rewrite=None, truth=None, cap=40000):
+    def __init__(self, fa, watch=None, cut=None, stop=None, tuples=None, returns=None, rewrite=None, truth=None, cap=40000):
         """watch(text, expr) -> bool : literals to remember along a path (also used to prune contradictions)
         cut(dnf) -> bool            : edges not to follow
+        stop(literals) -> bool      : path classes not to continue
         tuples  {ctor: [fields]}     : named tuples (field projection of a constructor call is folded)
         returns {function: ctor}     : functions returning such a tuple (x[0] is read as x.<field0>)
         rewrite(expr) -> expr|None   : domain facts applied bottom-up
@@ -97,6 +106,7 @@ class Sym:
         self.cfg = fa.cfg
         self.watch = watch or (lambda text, e: False)
         self.cut = cut
+        self.stop = stop
         self.tuples = tuples or {}
         self.rets = returns or {}
         self.rewrite = rewrite
@@ -110,9 +120,7 @@ class Sym:
     # ---- expressions ---------------------------------------------------------------------------
     def _p(self, text):
         import copy
-        if text not in self._pc:
-            self._pc[text] = _parse(text)
-        return copy.deepcopy(self._pc[text])
+        return copy.deepcopy(_parse(text))
 
     def token(self, kind, astnode, name=""):
         k = (kind, id(astnode), name)
@@ -228,6 +236,9 @@ class Sym:
                     for (a_, b_) in ((l, r), (r, l)):
                         if A.is_none(b_) and isinstance(a_, ast.Name) and a_.id.startswith("_exc"):
                             same = False
+                        # nor is a named tuple (constructed here, or returned by a function known to return one)
+                        if A.is_none(b_) and isinstance(a_, ast.Call) and (A.call_attr(a_) in self.tuples or A.call_attr(a_) in self.rets):
+                            same = False
                 if same is not None:
                     return same if isinstance(op, (ast.Is, ast.Eq)) else (not same)
         if self.xtruth is not None:
@@ -235,6 +246,20 @@ class Sym:
         return None
 
     # ---- exploration -----------------------------------------------------------------------------
+    def _feasible(self, d, lits):
+        """The disjuncts of a dnf that neither the store nor the literals already passed refute."""
+        out = []
+        for c in d:
+            ok = True
+            for (e, p) in c:
+                tv = self.truth(e)
+                if (tv is not None and tv != p) or (A.norm(e), not p) in lits:
+                    ok = False
+                    break
+            if ok:
+                out.append(c)
+        return out
+
     def _fit(self, text, astnode, name):
         if len(text) > 700:
             return self.token("big", astnode, name.replace(".", "_").replace("[", "_").replace("]", "_").replace("'", "").replace('"', "")[:20])
@@ -260,8 +285,38 @@ class Sym:
             return
         self._bind(env, self.loc(t, env_in), vtext, astnode)
 
-    def _step(self, nd, env_in):
-        """Store after executing node `nd` normally."""
+    def arms(self, value, env, lits=frozenset()):
+        """A value that is a conditional expression, split into its cases: [(literals, text)] (infeasible arms
+        dropped); any other value is its own single case."""
+        if not isinstance(value, ast.IfExp):
+            return [(lits, self.text(value, env))]
+        out = []
+        t = self.sub(value.test, env)
+        verdict = self.truth(t)
+        for (pol, arm) in ((True, value.body), (False, value.orelse)):
+            if verdict is not None and verdict != pol:
+                continue
+            dd = self._feasible(dnf(t, pol), lits)
+            if not dd:
+                continue
+            cs = certain(dd)
+            out += self.arms(arm, env, lits | {(tx, p) for (tx, p, e) in cs if self.watch(tx, e)})
+        return out
+
+    def _step(self, nd, env_in, lits):
+        """[(store, literals)] after executing node `nd` normally (several when a conditional expression is assigned)."""
+        a = nd.ast
+        if nd.kind == "stmt" and isinstance(a, (ast.Assign, ast.AnnAssign)) and isinstance(a.value, ast.IfExp):
+            out = []
+            for (l2, v) in self.arms(a.value, env_in, lits):
+                env = dict(env_in)
+                for t in (a.targets if isinstance(a, ast.Assign) else [a.target]):
+                    self._assign_target(env, env_in, t, v, a)
+                out.append((env, l2))
+            return out
+        return [(self._step1(nd, env_in), lits)]
+
+    def _step1(self, nd, env_in):
         a = nd.ast
         env = dict(env_in)
         if a is None:
@@ -344,16 +399,18 @@ class Sym:
             for (d, l) in cfg.succ[n]:
                 nl = lits
                 if l == "exc":
-                    env2 = env_in
+                    alts = [(env_in, lits)]
                 else:
                     if env_out is None:
-                        env_out = self._step(nd, env_in)
-                    env2 = env_out
+                        env_out = self._step(nd, env_in, lits)
+                    alts = env_out
                 if nd.kind == "test" and l in ("T", "F"):
                     if verdict is not None and verdict != (l == "T"):
                         continue
                     if is_test:
-                        dd = d_t if l == "T" else d_f
+                        dd = self._feasible(d_t if l == "T" else d_f, lits)
+                        if not dd:
+                            continue
                         cs = certain(dd)
                         if any((tx, not p) in lits for (tx, p, e) in cs):
                             continue
@@ -361,13 +418,16 @@ class Sym:
                             continue
                         add = {(tx, p) for (tx, p, e) in cs if self.watch(tx, e)}
                         if add:
-                            nl = lits | add
-                nxt = (d, tuple(sorted(env2.items())), nl)
-                if nxt not in seen:
-                    seen.add(nxt)
-                    if len(seen) > self.cap:
-                        raise AnalysisError("%s: too many path classes for the symbolic store" % self.fa.qual)
-                    work.append(nxt)
+                            alts = [(e2, l2 | add) for (e2, l2) in alts]
+                for (env2, nl) in alts:
+                    if self.stop is not None and self.stop(nl):
+                        continue
+                    nxt = (d, tuple(sorted(env2.items())), nl)
+                    if nxt not in seen:
+                        seen.add(nxt)
+                        if len(seen) > self.cap:
+                            raise AnalysisError("%s: too many path classes for the symbolic store" % self.fa.qual)
+                        work.append(nxt)
 
     # ---- queries -----------------------------------------------------------------------------------
     def at(self, astnode):
@@ -385,7 +445,10 @@ class Sym:
         out = []
         for r in self.fa.returns():
             for (env, lits) in self.at(r):
-                out.append((r, env, lits, self.text(r.value, env) if r.value is not None else "None"))
+                if r.value is None:
+                    out.append((r, env, lits, "None"))
+                else:
+                    out += [(r, env, l2, v) for (l2, v) in self.arms(r.value, env, lits)]
         return out
 
 
@@ -592,7 +655,7 @@ def _runner_sym(ck, fa, **kw):
             k = exact_class(ck, n.args[0])
             me = ck.repo.classes_named("MementoException")
             if k is not None and len(me) == 1 and ck.repo.is_subclass(k, me[0]):
-                return _parse("ResultType.exception")
+                return ast.parse("ResultType.exception", mode="eval").body
         return None
 
     return Sym(fa, tuples=tuples, returns={"process_existing_memento": "ExistingMementoResult"}, rewrite=rewrite,
@@ -653,7 +716,7 @@ def check_run_record_replay(ck, R):
     hit_seen = any(("hit" == kind(_parse(tx), p)) for sts in S.states.values() for (_e, lits) in sts for (tx, p) in lits if not tx.startswith("@"))
     ok = bool(lookups) and hit_seen
     if ok:
-        Sc = _runner_sym(ck, rl, watch=watch, cut=cut_miss)
+        Sc = _runner_sym(ck, rl, watch=watch, cut=cut_miss, stop=lambda lits: any(not tx.startswith("@") and kind(_parse(tx), p) == "miss" for (tx, p) in lits))
         ok = not Sc.reached(bn) and all(cfg.must_pass(lookups, i) for i in bn)
     ck.ob(R, rl.key(body, "body-only-on-miss"), ok, "the body runs only after a lookup found no valid memento" if ok else
           "the function body can run although a valid memoized result exists (or without looking one up)", rl.where(body))
